@@ -75,6 +75,13 @@ class C18(Prop):
         g = nx.Graph()
         g.add_nodes_from(case["nodes"])
         g.add_edges_from([tuple(e) for e in case["edges"]])
+        # the input carries data on vertices, edges and the graph itself: "untouched" includes all of it
+        g.graph["name"] = "input"
+        for k, v in enumerate(g.nodes()):
+            g.nodes[v]["joint_degree"] = (k, 1)
+        for k, (a, b) in enumerate(g.edges()):
+            g.edges[a, b]["weight"] = k + 0.5
+            g.edges[a, b]["topology"] = "2-clique"
         order = [list(e) for e in g.edges()]
         by_edge = {}
         for e, d in zip(case["edges"], case["draws"]):
@@ -88,10 +95,13 @@ class C18(Prop):
                 return Ex(Fraction(1, 2))
             used.append(seq[len(used)])
             return seq[len(used) - 1]
-        before = (list(g.nodes()), sorted(map(tuple, map(sorted, g.edges()))))
+        import copy
+        snap = lambda: copy.deepcopy((dict(g.graph), list(g.nodes(data=True)),
+                                      sorted((tuple(sorted((a, b))), sorted(d.items())) for a, b, d in g.edges(data=True))))
+        before = snap()
         with patched(random, "random", fake_random):
             S = bond_percolate(g, Ex(case["phi"]))
-        after = (list(g.nodes()), sorted(map(tuple, map(sorted, g.edges()))))
+        after = snap()
         n = g.order()
         return {"S": rs(recover(S, n)), "is_float": isinstance(S, float), "n_draws": len(used), "edge_order": order,
                 "draws_in_order": [rs(x) for x in seq], "input_untouched": before == after, "N": n}
